@@ -205,26 +205,14 @@ func C16(p *load.Program, run *report.Run) {
 // C15 decides the structure of the KOS consistency check.
 func C15(p *load.Program, run *report.Run) {
 	run.Rule("kos-check-dominates-success", "with malicious set, IKNPSender.Send returns success only over the true edges of both q.Equal(t) tests — its own, or those of a helper of the package that returns a nil error only over them and whose error Send tests")
-	run.Rule("kos-check-dependence", "the compared value depends on Delta, on both extension batches and on the received x; t0,t1 come from the wire (the slice follows helpers of the module and state kept in fields of the sender)")
+	run.Rule("kos-check-dependence", "the compared value depends on Delta, on both extension batches and on the received x; t0,t1 come from the wire, and the seed of the coefficients is received from or sent to the peer (the slice follows helpers of the module and state kept in fields of the sender)")
 	f, err := p.Method("ot", "IKNPSender", "Send")
 	if err != nil {
 		run.Undecided("kos-check-dominates-success", "ot.IKNPSender.Send", "", err.Error())
 		return
 	}
 	key := "ot.IKNPSender.Send"
-	equalsOf := func(g *ssa.Function) []*ssa.Call {
-		var out []*ssa.Call
-		for _, b := range g.Blocks {
-			for _, ins := range b.Instrs {
-				if c, ok := ins.(*ssa.Call); ok {
-					if callee := c.Call.StaticCallee(); callee != nil && callee.String() == "("+load.Module+"/ot.Label).Equal" {
-						out = append(out, c)
-					}
-				}
-			}
-		}
-		return out
-	}
+	equalsOf := func(g *ssa.Function) []*eqTest { return labelEqualities(g) }
 	successesOf := func(g *ssa.Function) []*ssa.Return {
 		var out []*ssa.Return
 		for _, b := range g.Blocks {
@@ -268,7 +256,7 @@ func C15(p *load.Program, run *report.Run) {
 	type helperCheck struct {
 		call   *ssa.Call
 		callee *ssa.Function
-		eqs    []*ssa.Call
+		eqs    []*eqTest
 	}
 	var helper *helperCheck
 	if len(equals) < 2 {
@@ -311,24 +299,30 @@ func C15(p *load.Program, run *report.Run) {
 		run.Count("equality-tests", len(equals))
 		for i, eq := range equals {
 			k := fmt.Sprintf("%s/equal#%d", key, i)
-			if dominated(f, cutBase, flow.TrueEdges(f, eq)) {
+			if eq.alias != "" {
+				run.Violate("kos-check-dominates-success", k+"/operands", p.Rel(eq.Pos()), eq.alias, nil)
+			}
+			if dominated(f, cutBase, eq.trueEdges(f)) {
 				run.OK("kos-check-dominates-success", k, p.Rel(eq.Pos()), "every malicious-mode success return needs this test to be true")
 			} else {
 				run.Violate("kos-check-dominates-success", k, p.Rel(eq.Pos()), "a success return is reachable in malicious mode without this equality being true", nil)
 			}
-			sliceRoots = append(sliceRoots, eq.Call.Args...)
+			sliceRoots = append(sliceRoots, eq.operands...)
 		}
 	} else {
 		run.Count("equality-tests", len(helper.eqs))
 		hname := strings.ReplaceAll(helper.callee.RelString(nil), load.Module+"/", "")
 		for i, eq := range helper.eqs {
 			k := fmt.Sprintf("%s/%s/equal#%d", key, hname, i)
-			if dominated(helper.callee, nil, flow.TrueEdges(helper.callee, eq)) {
+			if eq.alias != "" {
+				run.Violate("kos-check-dominates-success", k+"/operands", p.Rel(eq.Pos()), eq.alias, nil)
+			}
+			if dominated(helper.callee, nil, eq.trueEdges(helper.callee)) {
 				run.OK("kos-check-dominates-success", k, p.Rel(eq.Pos()), "the helper returns a nil error only over this test")
 			} else {
 				run.Violate("kos-check-dominates-success", k, p.Rel(eq.Pos()), "the helper can return a nil error without this equality being true", nil)
 			}
-			sliceRoots = append(sliceRoots, eq.Call.Args...)
+			sliceRoots = append(sliceRoots, eq.operands...)
 		}
 		// the edges of Send on which the helper's error is nil
 		var errv ssa.Value = helper.call
@@ -370,7 +364,7 @@ func C15(p *load.Program, run *report.Run) {
 	}
 	// dependence
 	xs.Add(sliceRoots...)
-	need := map[string]bool{"Delta": false, "send#1": false, "send#2": false, "receive x,t0,t1,seed": false, "mul128": false, "inner product": false}
+	need := map[string]bool{"Delta": false, "send#1": false, "send#2": false, "receive x,t0,t1": false, "challenge seed exchanged": false, "mul128": false, "inner product": false}
 	recvs := 0
 	for ins := range xs.Set {
 		switch t := ins.(type) {
@@ -404,7 +398,19 @@ func C15(p *load.Program, run *report.Run) {
 	}
 	need["send#1"] = batch >= 1
 	need["send#2"] = batch >= 2
-	need["receive x,t0,t1,seed"] = recvs >= 4
+	need["receive x,t0,t1"] = recvs >= 3
+	// the seed of the challenge coefficients is a fourth received label, or a value of the slice that Send sends
+	sentSeed := false
+	for _, b := range f.Blocks {
+		for _, ins := range b.Instrs {
+			if ci, ok := ins.(ssa.CallInstruction); ok && ci.Common().IsInvoke() && ci.Common().Method.Name() == "SendLabel" && len(ci.Common().Args) > 0 {
+				if in, ok := ci.Common().Args[0].(ssa.Instruction); ok && xs.Set[in] {
+					sentSeed = true
+				}
+			}
+		}
+	}
+	need["challenge seed exchanged"] = recvs >= 4 || sentSeed
 	for what, ok := range need {
 		k := key + "/depends-on " + what
 		if ok {
@@ -580,4 +586,109 @@ func condShape(v ssa.Value) string {
 		return fmt.Sprintf("<%s> %s <%s>", bo.X.Type().String(), bo.Op, bo.Y.Type().String())
 	}
 	return fmt.Sprintf("<%T>", v)
+}
+
+// eqTest is one test "these two labels are equal": Label.Equal, or a byte comparison (bytes.Equal,
+// subtle.ConstantTimeCompare(...) == 1) of the two labels' serialisations.
+type eqTest struct {
+	ins      ssa.Instruction
+	cond     ssa.Value // the boolean that is true when the labels are equal
+	negated  bool      // cond is true when they differ
+	operands []ssa.Value
+	alias    string // non-empty: the two serialisations share one buffer, the comparison compares a buffer with itself
+}
+
+func (e *eqTest) Pos() token.Pos { return e.ins.Pos() }
+
+func (e *eqTest) trueEdges(g *ssa.Function) [][2]int {
+	edges := flow.TrueEdges(g, e.cond)
+	if e.negated {
+		for i := range edges {
+			edges[i][1] = 1 - edges[i][1]
+		}
+	}
+	return edges
+}
+
+func labelEqualities(g *ssa.Function) []*eqTest {
+	var out []*eqTest
+	// the label a byte slice is the serialisation of: x.Bytes(&buf) (value or pointer receiver), possibly sliced
+	serial := func(v ssa.Value) (label ssa.Value, buf ssa.Value, ok bool) {
+		for d := 0; d < 4; d++ {
+			switch t := v.(type) {
+			case *ssa.Slice:
+				v = t.X
+				continue
+			case *ssa.Call:
+				callee := t.Call.StaticCallee()
+				if callee != nil && callee.Name() == "Bytes" && callee.Signature.Recv() != nil && strings.HasSuffix(strings.TrimPrefix(callee.Signature.Recv().Type().String(), "*"), "/ot.Label") && len(t.Call.Args) == 2 {
+					return t.Call.Args[0], t.Call.Args[1], true
+				}
+			}
+			break
+		}
+		return nil, nil, false
+	}
+	for _, b := range g.Blocks {
+		for _, ins := range b.Instrs {
+			c, ok := ins.(*ssa.Call)
+			if !ok {
+				continue
+			}
+			callee := c.Call.StaticCallee()
+			if callee == nil {
+				continue
+			}
+			switch callee.String() {
+			case "(" + load.Module + "/ot.Label).Equal":
+				out = append(out, &eqTest{ins: c, cond: c, operands: c.Call.Args})
+			case "bytes.Equal", "crypto/subtle.ConstantTimeCompare":
+				if len(c.Call.Args) != 2 {
+					continue
+				}
+				l0, b0, ok0 := serial(c.Call.Args[0])
+				l1, b1, ok1 := serial(c.Call.Args[1])
+				if !ok0 || !ok1 {
+					continue
+				}
+				t := &eqTest{ins: c, cond: c, operands: []ssa.Value{l0, l1}}
+				if b0 == b1 {
+					t.alias = "both labels are serialised into the same buffer before they are compared: Label.Bytes returns a view of its argument, so the comparison sees the second label twice and always succeeds"
+				}
+				if callee.Name() == "ConstantTimeCompare" {
+					// the verdict is (result == 1) or !(result != 1)
+					t.cond = nil
+					// through `ok &= other` (both are 0 or 1, the conjunction is 1 only if each is)
+					var follow func(v ssa.Value, depth int)
+					follow = func(v ssa.Value, depth int) {
+						if v.Referrers() == nil || depth > 3 {
+							return
+						}
+						for _, r := range *v.Referrers() {
+							bo, ok := r.(*ssa.BinOp)
+							if !ok {
+								continue
+							}
+							switch bo.Op {
+							case token.AND:
+								follow(bo, depth+1)
+							case token.EQL, token.NEQ:
+								if k, ok := bo.Y.(*ssa.Const); ok && k.Value != nil && k.Value.String() == "1" {
+									t.cond, t.negated = bo, bo.Op == token.NEQ
+								} else if k, ok := bo.Y.(*ssa.Const); ok && k.Value != nil && k.Value.String() == "0" && depth == 0 {
+									t.cond, t.negated = bo, bo.Op == token.EQL
+								}
+							}
+						}
+					}
+					follow(c, 0)
+					if t.cond == nil {
+						continue
+					}
+				}
+				out = append(out, t)
+			}
+		}
+	}
+	return out
 }
